@@ -7,7 +7,7 @@ import random
 
 from ..algo_eval import is_library_exc
 from ..interp import CannotEvaluate, PathLimit
-from ..intrinsics import build_index_data, index_specs
+from ..intrinsics import const_str, build_index_data, index_specs
 from ..srcmodel import AnalysisError, Func
 from ..values import ClsRef, Obj
 from .c17 import iso3166_codes
@@ -245,8 +245,8 @@ def run(ctx, report):
         for n in ast.walk(mod.tree):
             if isinstance(n, ast.Call) and isinstance(n.func, (ast.Name, ast.Attribute)):
                 d = prog.resolve_expr(mod, n.func)
-                if isinstance(d, Func) and d.qualname == "schwifty.registry.get" and n.args and isinstance(n.args[0], ast.Constant):
-                    nm = n.args[0].value
+                if isinstance(d, Func) and d.qualname == "schwifty.registry.get" and n.args and const_str(prog, mod, n.args[0]) is not None:
+                    nm = const_str(prog, mod, n.args[0])
                     r_x.instance({"reader": f"{mod.relpath}:{n.lineno}", "name": nm})
                     if nm not in specs and nm not in ("iban", "bank"):
                         r_x.finding(f"reader:{nm}", f"{mod.relpath}:{n.lineno} reads registry {nm!r}, which nothing builds", f"{mod.relpath}:{n.lineno}")
